@@ -286,15 +286,18 @@ func (h *baseHandler) flush() {
 	numUnsentMessages := func() int {
 		return len(h.lines) + len(h.serverMessages) + len(h.maprMessages)
 	}
-	for i := 0; i < 10; i++ {
-		if numUnsentMessages() == 0 {
-			dlog.Server.Debug(h.user, "ALL lines sent", fmt.Sprintf("%p", h))
+	// Wait until the client has taken everything which is still queued, however
+	// slowly it reads. Closing the session earlier would drop those messages.
+	for numUnsentMessages() > 0 {
+		dlog.Server.Debug(h.user, "Still lines to be sent")
+		select {
+		case <-time.After(time.Millisecond * 10):
+		case <-h.done.Done():
+			dlog.Server.Warn(h.user, "Some lines remain unsent", numUnsentMessages())
 			return
 		}
-		dlog.Server.Debug(h.user, "Still lines to be sent")
-		time.Sleep(time.Millisecond * 10)
 	}
-	dlog.Server.Warn(h.user, "Some lines remain unsent", numUnsentMessages())
+	dlog.Server.Debug(h.user, "ALL lines sent", fmt.Sprintf("%p", h))
 }
 
 func (h *baseHandler) shutdown() {
